@@ -6,12 +6,29 @@ import os
 HERE = os.path.dirname(os.path.abspath(__file__))
 
 CLAIMED = {
+    "C04": dict(
+        text="The real send_event_time/send_out_state of TwoLeafUnitBoundingPotentialEventHandler (its confirmation "
+             "routine is shared by the two-leaf cell-bounding and leaf cell-veto handlers) and of "
+             "TwoCompositeObjectSummedBoundingPotentialEventHandler run on symbolic in-states with logging stub "
+             "potentials: z3 proves accept <=> u < max(0, true rate) for every value of the uniform draw, true rate "
+             "and bound; on rejection the out-state equals the time-sliced in-state; bound and true rate are "
+             "evaluated for the same separation (target minus active at the event time), velocity and charges; "
+             "summed handler: bound = sum of positive bounds, rate = max(0, sum).",
+        note="The sentence 'the scaled 1/r bound dominates the merged-image derivative at every separation' is "
+             "outside the claim (truncated Ewald sum of erfc/exp/sin/cos, no SMT theory): a change of the bound's "
+             "prefactor is not detected. Composite cell-bounding/cell-veto handlers are not executed. Counterexamples "
+             "are confirmed by concrete re-execution of the real code at the model's values.",
+        technique="symbolic execution of the real event handlers with non-deterministic stub potentials; one QF_LRA "
+                  "validity query per obligation and path",
+        design="3.4"),
     "C05": dict(
         text="Bounded symbolic execution of the real Lifting classes in ideal-real arithmetic: for every table of size "
              "<= 5 (quick) / 7 (thorough), every active index, every sign pattern and every value of the uniform draws, "
              "z3 proves that the selected unit lies on the interval of length |q_k| of the cumulative negative-rate walk "
              "(global balance by the tiling argument stated in the evidence), has a strictly negative derivative and "
-             "that reset() leaves no hidden state.",
+             "that reset() leaves no hidden state. The table handed over by the real _fill_lifting (two composite "
+             "objects, symbolic pair derivatives) is proved to have an insertion order independent of the active "
+             "unit, the factor derivatives as entries, zero sum and the active flag on the active unit.",
         note="Ideal reals (rounding outside); table size bounded; random.uniform stubbed by its documented closed "
              "range; the zero-sum precondition of the table is assumed (it is the caller's contract).",
         technique="symbolic execution of the real Python code with proxy values (path enumeration by z3 feasibility) "
